@@ -52,6 +52,9 @@ func (p *Prog) lowerTop(fi *FuncInfo, ct *Contract) (fv *FuncIVL, err error) {
 	}
 	f.Entry = f.newBlock("entry")
 	l.cur = f.Entry
+	if ct != nil && ct.NoPanic != "" {
+		l.assertOb("ensures", ct.NoPanic, "nopanic: the function contains no reachable panic(...) call", nil, tTrue, ct.Props)
+	}
 	f.declare("$alloc", "Int")
 	f.HeapVars["$alloc"] = true
 	l.assume(Lt(IntLit(0), V("$alloc", "Int")))
